@@ -55,16 +55,31 @@ def run_scenario(chk, sc, cfgseed, how, field, axes, scale, ext=6, ext_cut=False
     special = {2: lambda lv, shape: np.ones(shape),
                3: lambda lv, shape: np.random.default_rng(cfgseed + lv).uniform(0.0, 1.0, shape)}
     flds = lattice.Fields(lat, cfgseed, payload="tame", special=special)
+    lim, vf = sc["lim"], bool(sc["volfrac"])
+    fi = FIELDS.index(field) + 1
+    a1, a2, a3 = axes
+    if cfgseed % 2 == 1:
+        # NON-INTERFERENCE: every cell the requirement does NOT count (covered by a finer selected level, or on a level above
+        # the limit) holds nan / +inf / -inf in the integrated field and in the volume fraction: a value that is not part of
+        # the integral must not reach it, not even multiplied by zero
+        bad = [float("nan"), float("inf"), float("-inf")][(cfgseed // 2) % 3]
+        for l in range(len(sc["mesh"])):
+            counted = np.zeros(lat.level_shape(l), dtype=bool)
+            for le, (c1, c2) in sc["expect"]:
+                if le == l:
+                    sl = [slice(None)] * 3
+                    sl[a1] = slice(c1 * scale, (c1 + 1) * scale)
+                    sl[a2] = slice(c2 * scale, (c2 + 1) * scale)
+                    counted[tuple(sl)] = True
+            for f in sorted({fi, 3} if vf else {fi}):
+                flds.level(l, f)[~counted] = bad
     ap = lat.ap("A", FIELDS, files_of=lambda lv, b: rng.randint(1, 3), shuffle=lambda lv, f, v: rng.sample(v, len(v)))
     d = chk.tmp_reuse()
     os.makedirs(d)
     src = os.path.join(d, "plt")
     gamma.write_plotfile(src, ap, cfg_, values=flds.values)
     before = alpha.tree_digest(src)
-    lim, vf = sc["lim"], bool(sc["volfrac"])
-    fi = FIELDS.index(field) + 1
     # expected: sum over exactly the cells the requirement counts
-    a1, a2, a3 = axes
     total, mag = 0.0, 0.0
     for l, (c1, c2) in sc["expect"]:
         dV = float(np.prod(gamma.level_dx(cfg_, 3, l)))
